@@ -2,6 +2,7 @@
 import re
 from analysis.engine import rule, AnchorMissing
 from analysis import cfg
+from analysis.facts import norm_path
 from analysis.sym import sym, show_in, nosite, peel, core, walk, ret_values, args_of, guards_at, atoms_at, \
     variant_facts_at, cmp_facts_at, init_value, edge_guards, const_str, agg_field
 from analysis.pat import match, Call, Cap, ANY, Pred, Const, has, chain_names
@@ -215,3 +216,23 @@ def r6(ctx):
                          'CS::new(.., use_graphemes), otherwise a correct operation list is rejected for text with multi code point clusters' % (
                              fn, (t.callee_res() or '').rsplit('::', 2)[-2] + '::' + (t.callee_res() or '').rsplit('::', 1)[-1], t.span['line']), t.span)
     ctx.ok(d, 'operations()/repair() measure the text through CharString only')
+
+
+@rule('C14', 'R-C14-8', 'T4a GUARD (checked subtractions in the whitespace corruption)',
+      'every checked subtraction in corrupt_whitespace and its closures has a minuend that is provably >= the subtrahend on every path '
+      '(`idx - 1` only under idx > 0): a length expression like `text.len() + cs.len() - 1` underflows for the empty text -- panic with overflow '
+      'checks, absurd capacity without -- so corruption no longer yields an output for every clean text')
+def r8(ctx):
+    from rules.c15 import unguarded_subs
+    b0 = ctx.body(CW)
+    total = 0
+    for b in [b0] + closures_in(ctx, b0):
+        ctx.stats['bodies_inspected'].add(b.path)
+        bad, n = unguarded_subs(b)
+        total += n
+        for t, a, c, have in bad:
+            ctx.fail(b, 'unguarded-sub|' + norm_path(b.path).rsplit('::', 1)[-1], '%s: `%s - %s` at line %d can underflow (proved lower bound of the minuend: %s)' % (
+                norm_path(b.path), show_in(b, a), show_in(b, c), t.span['line'], have), t.span)
+    if total < 1:
+        raise AnchorMissing('checked subtractions in corrupt_whitespace (found %d)' % total)
+    ctx.ok(b0, '%d checked subtractions in corrupt_whitespace inspected' % total)
